@@ -30,6 +30,7 @@ type Env struct {
 	seq     int
 	sig     uint64
 	inbox   []inboxItem
+	misuse  []string
 
 	Faults map[string]int
 	Probes map[string]int
@@ -60,6 +61,16 @@ func (e *Env) Fault(kind string) {
 func (e *Env) Probe(name string) {
 	e.mu.Lock()
 	e.Probes[name]++
+	e.mu.Unlock()
+}
+
+// Misuse records that a simulator object was used in a way only a stray
+// goroutine of the code under test can cause; it becomes a violation.
+func (e *Env) Misuse(what string) {
+	e.mu.Lock()
+	if len(e.misuse) < 4 {
+		e.misuse = append(e.misuse, what)
+	}
 	e.mu.Unlock()
 }
 
